@@ -28,6 +28,9 @@ pub struct Case {
     pub edit: Edit,
     /// reload through CBOR (instead of JSON) for the unchanged-text half
     pub cbor: bool,
+    /// additionally reload through STAM CSV (the validation information travels as ordinary data)
+    #[serde(default)]
+    pub csv: bool,
 }
 
 fn mode_of(m: u8) -> TextValidationMode {
@@ -54,7 +57,7 @@ impl Property for C18 {
         "C18"
     }
     fn rule(&self) -> String {
-        "case = final store of a C01 history (texts up to 70 codepoints so that both sides of the 40-codepoint 'auto' threshold occur; all selector kinds incl. relative and complex ones) x protection mode {checksum, text, both, auto} x one edit of one resource text (substitute / insert / delete at any position). Oracle: after protect_text, validate_text() reports invalid = 0, valid = number of annotations selecting non-empty text, every such annotation validates to Some(true); the same after a save and reload (STAM JSON or CBOR); after reloading the JSON with the edited text (a reload error because an offset no longer fits is an accepted outcome) an annotation validates to Some(false) exactly when the text it now selects differs from the text it selected when it was protected, and to Some(true) otherwise. Non-trivial = the edit changes the selected text of at least one annotation and leaves at least one other protected annotation untouched; distinct = distinct case JSON.".into()
+        "case = final store of a C01 history (texts up to 70 codepoints so that both sides of the 40-codepoint 'auto' threshold occur; all selector kinds incl. relative and complex ones) x protection mode {checksum, text, both, auto} x one edit of one resource text (substitute / insert / delete at any position). Oracle: after protect_text, validate_text() reports invalid = 0, valid = number of annotations selecting non-empty text, every such annotation validates to Some(true); the same after a save and reload (STAM JSON or CBOR, and for 30% of the cases additionally STAM CSV); after reloading the JSON with the edited text (a reload error because an offset no longer fits is an accepted outcome) an annotation validates to Some(false) exactly when the text it now selects differs from the text it selected when it was protected, and to Some(true) otherwise. Non-trivial = the edit changes the selected text of at least one annotation and leaves at least one other protected annotation untouched; distinct = distinct case JSON.".into()
     }
     fn assumptions(&self) -> Vec<String> {
         vec![
@@ -81,8 +84,8 @@ impl Property for C18 {
         ];
         // make sure several annotations select non-empty text: a few plain text annotations are appended
         let extra = proptest::collection::vec((any::<u16>(), 0u16..40000, 8000u16..=u16::MAX, any::<bool>(), any::<bool>()), 1..=4);
-        (history_strategy(cfg), 0u8..4, edit, proptest::bool::weighted(0.3), proptest::option::weighted(0.75, any::<u16>()), extra)
-            .prop_map(|(mut hist, mode, edit, cbor, aim, extra)| {
+        (history_strategy(cfg), 0u8..4, edit, proptest::bool::weighted(0.3), proptest::option::weighted(0.75, any::<u16>()), extra, proptest::bool::weighted(0.3))
+            .prop_map(|(mut hist, mode, edit, cbor, aim, extra, csv)| {
                 for (res, b, e, b_end, e_end) in extra {
                     hist.ops.push(Op::Annotate {
                         with_id: false,
@@ -92,7 +95,7 @@ impl Property for C18 {
                         data: vec![],
                     });
                 }
-                Case { hist, aim, mode, edit, cbor }
+                Case { hist, aim, mode, edit, cbor, csv }
             })
             .boxed()
     }
@@ -191,6 +194,21 @@ impl Property for C18 {
                 _ => {
                     out.label("stopped_at_foreign_divergence");
                     return out;
+                }
+            }
+        }
+        if case.csv {
+            let dir = TempDir::new("c18csv");
+            let f = dir.path("p.store.stam.csv");
+            // on a copy (saving as CSV changes the store's file names and data format)
+            match catch(|| AnnotationStore::from_str(&json, Config::default()).and_then(|mut copy| copy.to_file(&f)).and_then(|_| AnnotationStore::from_file(&f, Config::default()))) {
+                Ok(Ok(s2)) => {
+                    out.label("reload_csv");
+                    check_valid(&s2, "reloaded-csv", &mut out);
+                }
+                _ => {
+                    // whether every store survives a CSV round trip is C15's business
+                    out.label("csv_roundtrip_failed");
                 }
             }
         }
